@@ -526,3 +526,395 @@ Proof.
     + destruct (Nat.eqb_spec (owners r (run l)) 0); [lia|reflexivity].
     + rewrite C3. reflexivity.
 Qed.
+
+(* ================================================================== the machine satisfies the checker
+   Simulation between the machine (Impl/Owner.v) and the checker's reference state (Spec/C12.v): the
+   same region table, and handle by handle the same regions UP TO PERMUTATION (insert_region sorts
+   its vector, the checker keeps insertion order; remove_region takes an index, the checker removes
+   the first occurrence). *)
+Ltac lits :=
+  change (1 =? 1) with true; change (2 =? 1) with false; change (0 =? 1) with false;
+  change (2 =? 2) with true; change (0 =? 0) with true; change (0 =? 2) with false;
+  change (1 =? 2) with false; change (1 =? 0) with false; change (2 =? 0) with false; cbn [andb].
+
+Lemma mask_of_perm a b : Permutation a b -> mask_of a = mask_of b.
+Proof.
+  induction 1 as [|x a b _ IH|x y a|a b c _ IH1 _ IH2]; cbn [mask_of].
+  - reflexivity.
+  - rewrite IH. reflexivity.
+  - rewrite !N.lor_assoc, (N.lor_comm (2 ^ y) (2 ^ x)). reflexivity.
+  - congruence.
+Qed.
+Lemma mask_of_one r : mask_of [r] = 2 ^ r.
+Proof. cbn [mask_of]. apply N.lor_0_r. Qed.
+Lemma existsb_eqb_In r l : existsb (N.eqb r) l = true <-> In r l.
+Proof.
+  rewrite existsb_exists. split.
+  - intros (x & Hx & E). apply N.eqb_eq in E. subst. exact Hx.
+  - intros H. exists r. split; [exact H|apply N.eqb_refl].
+Qed.
+
+Lemma insert_sorted_perm f x l : Permutation (insert_sorted f x l) (x :: l).
+Proof.
+  induction l as [|y l IH]; cbn [insert_sorted]; [apply Permutation_refl|].
+  destruct (start_of f x <? start_of f y); [apply Permutation_refl|].
+  eapply perm_trans; [apply perm_skip, IH|apply perm_swap].
+Qed.
+Lemma sort_perm f l : Permutation (sort_by_start f l) l.
+Proof.
+  induction l as [|x l IH]; cbn [sort_by_start]; [constructor|].
+  eapply perm_trans; [apply insert_sorted_perm|apply perm_skip, IH].
+Qed.
+Lemma remove_nth_perm i : forall l, (i < length l)%nat -> Permutation l (nth i l 0 :: remove_nth i l).
+Proof.
+  induction i as [|i IH]; intros [|x l] L; cbn [length] in L; try lia; cbn [nth remove_nth]; [apply Permutation_refl|].
+  eapply perm_trans; [apply perm_skip, (IH l); lia|apply perm_swap].
+Qed.
+Lemma remove_one_perm r : forall l, In r l -> Permutation l (r :: remove_one r l).
+Proof.
+  induction l as [|x l IH]; intros H; [destruct H|]. cbn [remove_one].
+  destruct (N.eqb_spec x r) as [->|Hn]; [apply Permutation_refl|].
+  destruct H as [H|H]; [congruence|]. eapply perm_trans; [apply perm_skip, IH, H|apply perm_swap].
+Qed.
+Lemma find_start_nth f base : forall rs i, find_start f base rs = Some i -> start_of f (nth i rs 0) = base.
+Proof.
+  induction rs as [|r t IH]; intros i H; cbn [find_start] in H; [discriminate|].
+  destruct (N.eqb_spec (start_of f r) base) as [E|E]; [inversion H; subst i; cbn [nth]; exact E|].
+  destruct (find_start f base t) as [j|]; [|discriminate]. inversion H; subst. cbn [nth]. apply IH. reflexivity.
+Qed.
+
+(* ---- static fields *)
+Definition same_static (f g : N -> rrec) : Prop := forall r, r_kind (f r) = r_kind (g r) /\ r_slot (f r) = r_slot (g r).
+Lemma clone_arcs_static rs f : same_static (clone_arcs rs f) f.
+Proof.
+  intros r. rewrite clone_arcs_at. destruct (iter_static clone1 (count r rs) (f r) clone1_static) as (A & B & _). split; assumption.
+Qed.
+Lemma drop_arcs_static rs f : same_static (drop_arcs rs f) f.
+Proof.
+  intros r. rewrite drop_arcs_at. destruct (iter_static drop1 (count r rs) (f r) drop1_static) as (A & B & _). split; assumption.
+Qed.
+Lemma same_static_trans f g h : same_static f g -> same_static g h -> same_static f h.
+Proof. intros A B r. destruct (A r), (B r). split; congruence. Qed.
+Lemma same_static_refl f : same_static f f.
+Proof. intros r. split; reflexivity. Qed.
+
+(* ---- the simulation *)
+Definition hsim (SN : list snap) (h : option handle) (k : option shandle) : Prop :=
+  match h, k with
+  | None, None => True
+  | Some (HRegion r), Some (SRegion r') => r = r'
+  | Some (HMap rs), Some (SMap rs') => Permutation rs rs'
+  | Some (HSnap a), Some (SSnap rs') => exists sn, nth_error SN a = Some sn /\ Permutation (s_regions sn) rs'
+  | _, _ => False
+  end.
+Record Sim (s : state) (k : sstate) : Prop := {
+  M_n : N.of_nat (length (k_kinds k)) = nreg s;
+  M_kind : forall r, r < nreg s -> kind_of k r = r_kind (reg s r) /\ slot_of k r = r_slot (reg s r);
+  M_hs : Forall2 (hsim (snaps s)) (handles s) (k_hs k)
+}.
+
+Lemma Sim_init : Sim init sinit.
+Proof. constructor; cbn; [reflexivity|intros r H; lia|constructor]. Qed.
+
+Lemma lookup_F2 SN hs ks : Forall2 (hsim SN) hs ks -> forall i,
+  hsim SN (match nth_error hs i with Some (Some h) => Some h | _ => None end)
+         (match nth_error ks i with Some (Some h) => Some h | _ => None end).
+Proof.
+  induction 1 as [|h k hs ks Hh _ IH]; intros [|i]; cbn [nth_error]; try exact I; [|apply IH].
+  destruct h as [h|], k as [k|]; cbn [hsim] in *; try contradiction; exact Hh.
+Qed.
+Lemma lookup_sim s k i : Sim s k -> hsim (snaps s) (get_handle s i) (k_get k i).
+Proof. intros HS. exact (lookup_F2 _ _ _ (M_hs s k HS) i). Qed.
+
+Lemma F2_set_none SN hs ks : Forall2 (hsim SN) hs ks -> forall i, Forall2 (hsim SN) (set_nth hs i None) (sset_nth ks i None).
+Proof.
+  induction 1 as [|h k hs ks Hh Ht IH]; intros [|i]; cbn [set_nth sset_nth]; constructor; try assumption.
+  - exact I.
+  - apply IH.
+Qed.
+Lemma F2_snaps SN SN' hs ks : Forall2 (hsim SN) hs ks ->
+  (forall i a, nth_error hs i = Some (Some (HSnap a)) -> forall sn, nth_error SN a = Some sn ->
+     exists sn', nth_error SN' a = Some sn' /\ s_regions sn' = s_regions sn) ->
+  Forall2 (hsim SN') hs ks.
+Proof.
+  induction 1 as [|h k hs ks Hh Ht IH]; intros H; constructor.
+  - destruct h as [[r|rs|a]|], k as [[r'|rs'|rs']|]; cbn [hsim] in *; try contradiction; try exact Hh.
+    destruct Hh as (sn & A & B). destruct (H O a eq_refl sn A) as (sn' & A' & B'). exists sn'. split; [exact A'|rewrite B'; exact B].
+  - apply IH. intros i a Hi. apply (H (S i) a Hi).
+Qed.
+
+Lemma sim_push s k f new knew : Sim s k -> same_static f (reg s) ->
+  Forall2 (hsim (snaps s)) (map Some new) (map Some knew) -> Sim (push s f new) (spush k knew).
+Proof.
+  intros HS St Hn. constructor; cbn [push spush nreg reg snaps handles k_kinds k_hs].
+  - apply (M_n s k HS).
+  - intros r Hr. destruct (St r) as [A B]. rewrite A, B. apply (M_kind s k HS r Hr).
+  - apply Forall2_app; [apply (M_hs s k HS)|exact Hn].
+Qed.
+Lemma sim_with_reg s k f : Sim s k -> same_static f (reg s) -> Sim (with_reg s f) k.
+Proof.
+  intros HS St. constructor; cbn [with_reg nreg reg snaps handles].
+  - apply (M_n s k HS).
+  - intros r Hr. destruct (St r) as [A B]. rewrite A, B. apply (M_kind s k HS r Hr).
+  - apply (M_hs s k HS).
+Qed.
+
+Lemma region_handles_sim s k : Sim s k -> forall hs, sregion_handles k hs = region_handles s hs.
+Proof.
+  intros HS. induction hs as [|h t IH]; cbn [sregion_handles region_handles]; [reflexivity|].
+  pose proof (lookup_sim s k h HS) as L.
+  destruct (get_handle s h) as [[r|rs|a]|], (k_get k h) as [[r'|rs'|rs']|]; cbn [hsim] in L; try contradiction;
+    try reflexivity.
+  subst. rewrite IH. reflexivity.
+Qed.
+
+Lemma handle_reg_lt s i h r : Inv s -> nth_error (handles s) i = Some (Some h) -> (0 < href r h)%nat -> r < nreg s.
+Proof.
+  intros HI H P. pose proof (handle_owned s i h r H P) as Q.
+  destruct (N.lt_ge_cases r (nreg s)) as [L|L]; [exact L|]. rewrite (J_fresh s HI r L) in Q. lia.
+Qed.
+Lemma snap_handles_none a l i : snap_handles a l = O -> nth_error l i <> Some (Some (HSnap a)).
+Proof.
+  intros Z H. rewrite (snap_handles_set_none a l i _ H) in Z. cbn [is_snap] in Z. rewrite Nat.eqb_refl in Z. lia.
+Qed.
+
+(* ---- reachability and the live mask *)
+Lemma hsim_reach s h sh r : hsim (snaps s) (Some h) (Some sh) -> (In r (reach_list s h) <-> In r (regs_of sh)).
+Proof.
+  destruct h as [r0|rs|a], sh as [r'|rs'|rs']; cbn [hsim reach_list regs_of]; try contradiction.
+  - intros ->. reflexivity.
+  - intros P. split; apply Permutation_in; [exact P|apply Permutation_sym; exact P].
+  - intros (sn & A & P). rewrite A. split; apply Permutation_in; [exact P|apply Permutation_sym; exact P].
+Qed.
+Lemma reach_F2 s hs ks r : Forall2 (hsim (snaps s)) hs ks ->
+  (reach ks r = true <-> exists i h, nth_error hs i = Some (Some h) /\ In r (reach_list s h)).
+Proof.
+  induction 1 as [|h k hs ks Hh _ IH]; unfold reach in *; cbn [existsb].
+  - split; [discriminate|]. intros (i & h & A & _). destruct i; discriminate.
+  - rewrite orb_true_iff, IH. split.
+    + intros [H|(i & h0 & A & B)].
+      * destruct k as [sh|]; [|discriminate]. destruct h as [h0|]; [|exfalso; exact Hh].
+        exists O, h0. split; [reflexivity|]. apply (hsim_reach s h0 sh r Hh). apply existsb_eqb_In. exact H.
+      * exists (S i), h0. split; assumption.
+    + intros (i & h0 & A & B). destruct i as [|i].
+      * cbn [nth_error] in A. inversion A; subst. left. destruct k as [sh|]; [|exfalso; destruct h0; exact Hh].
+        apply existsb_eqb_In. apply (hsim_reach s h0 sh r Hh). exact B.
+      * right. exists i, h0. split; assumption.
+Qed.
+
+Lemma live_sim s k : Inv s -> Sim s k -> mask_live s = expected_live k.
+Proof.
+  intros HI HS. unfold mask_live, expected_live.
+  replace (length (k_kinds k)) with (N.to_nat (nreg s)) by (rewrite <- (M_n s k HS); apply Nat2N.id).
+  apply mask_upto_ext. intros r Hr. rewrite N2Nat.id in Hr.
+  destruct (M_kind s k HS r Hr) as [Ek _]. rewrite Ek.
+  pose proof (J_reg s HI r Hr) as (_ & _ & C). rewrite (J_kind s HI r Hr) in C.
+  destruct (r_kind (reg s r) =? 2); cbn [negb] in C; [apply C|].
+  pose proof (owners_pos_iff_reaches_gen s r HI) as OR. pose proof (reach_F2 s _ _ r (M_hs s k HS)) as RF.
+  fold (reaches s r) in RF.
+  destruct C as [(C1 & _ & C3)|(C1 & _ & C3)]; rewrite C1.
+  - symmetry. apply RF, OR. exact C3.
+  - destruct (reach (k_hs k) r) eqn:E; [|reflexivity]. exfalso.
+    assert (0 < owners r s)%nat by (apply OR, RF; reflexivity). lia.
+Qed.
+
+(* ---- one operation: the checker accepts the st / val the machine reports and the states stay related *)
+Definition op_goal (o : wop) (s : state) (k : sstate) : Prop :=
+  exists k', spec_op k o (obs_of_result (snd (wexec o s)) (fst (wexec o s))) = Some k' /\ Sim (fst (wexec o s)) k'.
+
+Ltac quiet HS := cbn [fst snd obs_of_result w_st w_val]; lits; eexists; split; [reflexivity|exact HS].
+
+Lemma op_create kind slot s k : Inv s -> Sim s k -> op_goal (WCreate kind slot) s k.
+Proof.
+  intros HI HS. unfold op_goal, wexec. cbn [op_of exec spec_op fst snd obs_of_result w_st w_val].
+  rewrite mask_of_one, (M_n s k HS). lits. rewrite N.eqb_refl. eexists. split; [reflexivity|].
+  constructor; cbn [nreg reg snaps handles k_kinds k_hs].
+  - rewrite app_length. cbn [length]. rewrite <- (M_n s k HS). lia.
+  - intros r Hr. unfold kind_of, slot_of, updf. cbn [k_kinds].
+    destruct (N.eqb_spec r (nreg s)) as [->|Hn].
+    + rewrite <- (M_n s k HS), Nat2N.id, app_nth2, Nat.sub_diag by lia. split; reflexivity.
+    + assert (Hlt : r < nreg s) by lia. rewrite app_nth1 by (rewrite <- (M_n s k HS) in Hlt; lia).
+      apply (M_kind s k HS r Hlt).
+  - apply Forall2_app; [apply (M_hs s k HS)|]. constructor; [|constructor]. cbn [hsim]. reflexivity.
+Qed.
+
+Lemma op_build hs s k : Inv s -> Sim s k -> op_goal (WBuild hs) s k.
+Proof.
+  intros HI HS. unfold op_goal, wexec. cbn [op_of exec spec_op]. rewrite (region_handles_sim s k HS).
+  destruct (region_handles s hs) as [rs|]; [|quiet HS].
+  destruct (from_arc_regions_ok (clone_arcs rs (reg s)) rs); cbn [fst snd obs_of_result w_st w_val]; lits.
+  - rewrite N.eqb_refl. eexists. split; [reflexivity|]. apply sim_push; [exact HS|apply clone_arcs_static|].
+    constructor; [|constructor]. cbn [hsim]. apply Permutation_refl.
+  - eexists. split; [reflexivity|]. apply sim_with_reg; [exact HS|].
+    eapply same_static_trans; [apply drop_arcs_static|apply clone_arcs_static].
+Qed.
+
+Lemma op_insert hm hr s k : Inv s -> Sim s k -> op_goal (WInsert hm hr) s k.
+Proof.
+  intros HI HS. unfold op_goal, wexec. cbn [op_of exec spec_op].
+  pose proof (lookup_sim s k hm HS) as L1. pose proof (lookup_sim s k hr HS) as L2.
+  destruct (get_handle s hm) as [[r1|rs|a1]|], (k_get k hm) as [[r1'|rs'|rs1']|]; cbn [hsim] in L1; try contradiction;
+    try (quiet HS).
+  destruct (get_handle s hr) as [[r|rs2|a2]|], (k_get k hr) as [[r'|rs2'|rs2']|]; cbn [hsim] in L2; try contradiction;
+    try (quiet HS).
+  subst r'. cbv zeta.
+  set (f2 := updf (clone_arcs rs (reg s)) r (clone1 (clone_arcs rs (reg s) r))).
+  assert (St : same_static f2 (reg s)).
+  { change f2 with (clone_arcs [r] (clone_arcs rs (reg s))).
+    eapply same_static_trans; apply clone_arcs_static. }
+  assert (P : Permutation (sort_by_start f2 (rs ++ [r])) (r :: rs')).
+  { eapply perm_trans; [apply sort_perm|]. eapply perm_trans; [apply Permutation_sym, Permutation_cons_append|].
+    apply perm_skip. exact L1. }
+  destruct (from_arc_regions_ok f2 (sort_by_start f2 (rs ++ [r]))); cbn [fst snd obs_of_result w_st w_val]; lits.
+  - rewrite (mask_of_perm _ _ P), N.eqb_refl. eexists. split; [reflexivity|].
+    apply sim_push; [exact HS|exact St|]. constructor; [|constructor]. exact P.
+  - eexists. split; [reflexivity|]. apply sim_with_reg; [exact HS|].
+    eapply same_static_trans; [apply drop_arcs_static|exact St].
+Qed.
+
+Lemma op_remove hm base size s k : Inv s -> Sim s k -> op_goal (WRemove hm base size) s k.
+Proof.
+  intros HI HS. unfold op_goal, wexec. cbn [op_of exec spec_op].
+  pose proof (lookup_sim s k hm HS) as L1.
+  destruct (get_handle s hm) as [[r1|rs|a1]|] eqn:G, (k_get k hm) as [[r1'|rs'|rs1']|]; cbn [hsim] in L1; try contradiction;
+    try (quiet HS).
+  apply get_handle_Some in G.
+  destruct (find_start (reg s) base rs) as [i|] eqn:F; [|quiet HS].
+  destruct (size =? PAGE); [|quiet HS].
+  cbv zeta. cbn [fst snd obs_of_result w_st w_val]. lits. rewrite mask_of_one.
+  pose proof (find_start_lt _ _ _ _ F) as Li. pose proof (find_start_nth _ _ _ _ F) as Eb.
+  set (r := nth i rs 0) in *.
+  assert (Hin : In r rs) by (apply nth_In; exact Li).
+  assert (Hin' : In r rs') by (eapply Permutation_in; [exact L1|exact Hin]).
+  assert (Hlt : r < nreg s).
+  { apply (handle_reg_lt s hm (HMap rs) r HI G). cbn [href]. apply count_pos_In. exact Hin. }
+  set (pred := fun r0 => (2 ^ r0 =? 2 ^ r) && (slot_of k r0 * 65536 =? base)).
+  assert (Hp : pred r = true).
+  { unfold pred. rewrite N.eqb_refl. cbn [andb]. destruct (M_kind s k HS r Hlt) as [_ Es]. rewrite Es.
+    apply N.eqb_eq. exact Eb. }
+  destruct (find pred rs') as [r2|] eqn:Fd.
+  - apply find_some in Fd. destruct Fd as [_ Fp]. unfold pred in Fp. apply andb_true_iff in Fp. destruct Fp as [Fp _].
+    apply N.eqb_eq in Fp. apply N.pow_inj_r in Fp; [|lia]. subst r2.
+    eexists. split; [reflexivity|]. apply sim_push; [exact HS|apply clone_arcs_static|].
+    constructor; [|constructor; [reflexivity|constructor]]. cbn [hsim].
+    apply (Permutation_cons_inv (a := r)).
+    eapply perm_trans; [apply Permutation_sym, remove_nth_perm; exact Li|].
+    eapply perm_trans; [exact L1|]. apply remove_one_perm. exact Hin'.
+  - exfalso. pose proof (find_none _ _ Fd r Hin') as X. congruence.
+Qed.
+
+Lemma op_clone h s k : Inv s -> Sim s k -> op_goal (WCloneH h) s k.
+Proof.
+  intros HI HS. unfold op_goal, wexec. cbn [op_of exec spec_op].
+  pose proof (lookup_sim s k h HS) as L1.
+  destruct (get_handle s h) as [[r|rs|a]|] eqn:G, (k_get k h) as [[r'|rs'|rs']|]; cbn [hsim] in L1; try contradiction;
+    try (quiet HS).
+  - subst r'. cbn [fst snd obs_of_result w_st w_val regs_of]. lits. rewrite N.eqb_refl.
+    eexists. split; [reflexivity|]. apply sim_push; [exact HS| |].
+    + change (updf (reg s) r (clone1 (reg s r))) with (clone_arcs [r] (reg s)). apply clone_arcs_static.
+    + constructor; [reflexivity|constructor].
+  - cbn [fst snd obs_of_result w_st w_val regs_of]. lits. rewrite (mask_of_perm _ _ L1), N.eqb_refl.
+    eexists. split; [reflexivity|]. apply sim_push; [exact HS|apply clone_arcs_static|].
+    constructor; [exact L1|constructor].
+  - destruct L1 as (sn & Sa & P). rewrite Sa.
+    cbn [fst snd obs_of_result w_st w_val regs_of]. lits. rewrite (mask_of_perm _ _ P), N.eqb_refl.
+    eexists. split; [reflexivity|].
+    assert (Keep : forall a0 sn0, nth_error (snaps s) a0 = Some sn0 ->
+              exists sn', nth_error (set_nth (snaps s) a {| s_strong := S (s_strong sn); s_regions := s_regions sn |}) a0 = Some sn' /\
+                          s_regions sn' = s_regions sn0).
+    { intros a0 sn0 H0. rewrite nth_error_set_nth. destruct (Nat.eqb_spec a a0) as [->|Hn].
+      - rewrite Sa. eexists. split; [reflexivity|]. cbn [s_regions]. congruence.
+      - exists sn0. split; [exact H0|reflexivity]. }
+    constructor; cbn [nreg reg snaps handles spush k_kinds k_hs map].
+    + apply (M_n s k HS).
+    + apply (M_kind s k HS).
+    + apply Forall2_app.
+      * eapply F2_snaps; [apply (M_hs s k HS)|]. intros i a0 _ sn0 H0. apply Keep. exact H0.
+      * constructor; [|constructor]. cbn [hsim]. destruct (Keep a sn Sa) as (sn' & A & B).
+        exists sn'. split; [exact A|rewrite B; exact P].
+Qed.
+
+Lemma op_snap hm s k : Inv s -> Sim s k -> op_goal (WSnap hm) s k.
+Proof.
+  intros HI HS. unfold op_goal, wexec. cbn [op_of exec spec_op].
+  pose proof (lookup_sim s k hm HS) as L1.
+  destruct (get_handle s hm) as [[r|rs|a]|] eqn:G, (k_get k hm) as [[r'|rs'|rs']|]; cbn [hsim] in L1; try contradiction;
+    try (quiet HS).
+  cbn [fst snd obs_of_result w_st w_val]. lits. rewrite (mask_of_perm _ _ L1), N.eqb_refl.
+  eexists. split; [reflexivity|].
+  constructor; cbn [nreg reg snaps handles spush k_kinds k_hs map].
+  - apply (M_n s k HS).
+  - intros r Hr. destruct (clone_arcs_static rs (reg s) r) as [A B]. rewrite A, B. apply (M_kind s k HS r Hr).
+  - apply Forall2_app.
+    + eapply F2_snaps; [apply (M_hs s k HS)|]. intros i a0 _ sn0 H0. exists sn0. split; [|reflexivity].
+      rewrite nth_error_app1; [exact H0|]. apply nth_error_Some. congruence.
+    + constructor; [|constructor]. cbn [hsim]. eexists. split.
+      * rewrite nth_error_app2, Nat.sub_diag by lia. reflexivity.
+      * exact L1.
+Qed.
+
+Lemma op_drop h s k : Inv s -> Sim s k -> op_goal (WDropH h) s k.
+Proof.
+  intros HI HS. unfold op_goal, wexec. cbn [op_of exec spec_op].
+  pose proof (lookup_sim s k h HS) as L1.
+  destruct (get_handle s h) as [[r|rs|a]|] eqn:G, (k_get k h) as [[r'|rs'|rs']|]; cbn [hsim] in L1; try contradiction;
+    try (quiet HS).
+  - cbn [fst snd obs_of_result w_st w_val mask_of]. lits. eexists. split; [reflexivity|].
+    constructor; cbn [nreg reg snaps handles k_kinds k_hs].
+    + apply (M_n s k HS).
+    + intros r0 Hr. change (updf (reg s) r (drop1 (reg s r))) with (drop_arcs [r] (reg s)).
+      destruct (drop_arcs_static [r] (reg s) r0) as [A B]. rewrite A, B. apply (M_kind s k HS r0 Hr).
+    + apply F2_set_none, (M_hs s k HS).
+  - cbn [fst snd obs_of_result w_st w_val mask_of]. lits. eexists. split; [reflexivity|].
+    constructor; cbn [nreg reg snaps handles k_kinds k_hs].
+    + apply (M_n s k HS).
+    + intros r0 Hr. destruct (drop_arcs_static rs (reg s) r0) as [A B]. rewrite A, B. apply (M_kind s k HS r0 Hr).
+    + apply F2_set_none, (M_hs s k HS).
+  - destruct L1 as (sn & Sa & P). rewrite Sa. apply get_handle_Some in G.
+    destruct (J_snap s HI a sn Sa) as [Jc _].
+    assert (Same : forall n, Forall2 (hsim (set_nth (snaps s) a {| s_strong := n; s_regions := s_regions sn |}))
+                               (set_nth (handles s) h None) (sset_nth (k_hs k) h None)).
+    { intros n. eapply F2_snaps; [apply F2_set_none, (M_hs s k HS)|]. intros i a0 _ sn0 H0.
+      rewrite nth_error_set_nth. destruct (Nat.eqb_spec a a0) as [->|Hn].
+      - rewrite Sa. eexists. split; [reflexivity|]. cbn [s_regions]. congruence.
+      - exists sn0. split; [exact H0|reflexivity]. }
+    destruct (s_strong sn) as [|[|n]] eqn:St; cbn [fst snd obs_of_result w_st w_val mask_of]; lits;
+      (eexists; split; [reflexivity|]); constructor; cbn [nreg reg snaps handles k_kinds k_hs];
+      try apply (M_n s k HS); try apply (M_kind s k HS); try apply Same.
+    + intros r0 Hr. destruct (drop_arcs_static (s_regions sn) (reg s) r0) as [A B]. rewrite A, B. apply (M_kind s k HS r0 Hr).
+    + (* the last Arc<map>: no other handle names this snapshot *)
+      assert (Z : snap_handles a (set_nth (handles s) h None) = O).
+      { pose proof (snap_handles_set_none a _ h _ G) as Q. cbn [is_snap] in Q. rewrite Nat.eqb_refl in Q. lia. }
+      eapply F2_snaps; [apply F2_set_none, (M_hs s k HS)|]. intros i a0 Hi sn0 H0.
+      rewrite nth_error_set_nth. destruct (Nat.eqb_spec a a0) as [->|Hn].
+      * exfalso. exact (snap_handles_none a0 _ i Z Hi).
+      * exists sn0. split; [exact H0|reflexivity].
+Qed.
+
+Lemma op_sim o s k : Inv s -> Sim s k -> op_goal o s k.
+Proof.
+  intros HI HS. destruct o as [kind slot|hs|hm hr|hm base size|h|hm|h|].
+  - apply op_create; assumption.
+  - apply op_build; assumption.
+  - apply op_insert; assumption.
+  - apply op_remove; assumption.
+  - apply op_clone; assumption.
+  - apply op_snap; assumption.
+  - apply op_drop; assumption.
+  - unfold op_goal, wexec. cbn [op_of spec_op]. quiet HS.
+Qed.
+
+Lemma wexec_Inv o s : Inv s -> Inv (fst (wexec o s)).
+Proof. intros HI. unfold wexec. destruct (op_of o) as [o'|]; [apply exec_Inv; exact HI|exact HI]. Qed.
+
+Lemma ok_from_sim : forall ops s k, Inv s -> Sim s k -> ok_from k ops (run_w s ops) = true.
+Proof.
+  induction ops as [|o ops IH]; intros s k HI HS; cbn [run_w ok_from]; [reflexivity|].
+  destruct (op_sim o s k HI HS) as (k' & E & HS'). pose proof (wexec_Inv o s HI) as HI'.
+  destruct (wexec o s) as [s' r]. cbn [fst snd] in *. cbn [ok_from]. unfold spec_step. rewrite E.
+  replace (w_live (obs_of_result r s')) with (mask_live s') by (destruct r; reflexivity).
+  rewrite (live_sim s' k' HI' HS'), N.eqb_refl. apply IH; assumption.
+Qed.
+
+Lemma C12_model_ok_lemma : forall ops, ok_C12 ops (run_C12 ops) = true.
+Proof. intros ops. apply ok_from_sim; [apply Inv_init|apply Sim_init]. Qed.
